@@ -430,6 +430,66 @@ theorem orderBy_alias (σ : List Expr) (ks : List SortKey) (l : List Row) :
     (sortRows (substKeys σ ks) l).map (projRow σ) = sortRows ks (l.map (projRow σ)) :=
   map_sortRows (substKeys σ ks) ks (projRow σ) (fun a c => (cmpKeys_substKeys σ ks a c).symm) l
 
+/-! ### positional freshness: a derive APPENDS columns, a key that reads existing positions does not see them -/
+
+theorem eval_append (e : Expr) (r ext : Row) (h : ∀ i ∈ e.reads, i < r.length) :
+    e.eval (r ++ ext) = e.eval r := by
+  induction e with
+  | col i =>
+    have hi : i < r.length := h i (by simp [Expr.reads])
+    simp [Expr.eval, List.getD_eq_getElem?_getD, List.getElem?_append_left hi]
+  | lit v => rfl
+  | bin op a b iha ihb =>
+    simp only [Expr.reads, List.mem_append] at h
+    simp [Expr.eval, iha (fun i hi => h i (Or.inl hi)), ihb (fun i hi => h i (Or.inr hi))]
+  | neg a ih => simp [Expr.eval, ih h]
+  | not a ih => simp [Expr.eval, ih h]
+  | isNull a ih => simp [Expr.eval, ih h]
+  | notNull a ih => simp [Expr.eval, ih h]
+  | ite c t e ihc iht ihe =>
+    simp only [Expr.reads, List.mem_append] at h
+    simp [Expr.eval, ihc (fun i hi => h i (Or.inl (Or.inl hi))), iht (fun i hi => h i (Or.inl (Or.inr hi))),
+      ihe (fun i hi => h i (Or.inr hi))]
+
+theorem deriveRow_prefix (es : List Expr) (r : Row) : ∃ ext, deriveRow es r = r ++ ext := by
+  induction es generalizing r with
+  | nil => exact ⟨[], by simp [deriveRow]⟩
+  | cons e es ih =>
+    obtain ⟨ext, h⟩ := ih (r ++ [e.eval r])
+    refine ⟨e.eval r :: ext, ?_⟩
+    simp only [deriveRow, List.foldl_cons] at *
+    rw [h]; simp
+
+/-- the keys read only the first `w` positions -/
+def KeysWithin (w : Nat) (ks : List SortKey) : Prop := ∀ k ∈ ks, ∀ i ∈ k.1.reads, i < w
+
+theorem cmpKeys_deriveRow (es : List Expr) (ks : List SortKey) (a b : Row)
+    (h : KeysWithin (min a.length b.length) ks) :
+    cmpKeys ks (deriveRow es a) (deriveRow es b) = cmpKeys ks a b := by
+  obtain ⟨xa, ha⟩ := deriveRow_prefix es a
+  obtain ⟨xb, hb⟩ := deriveRow_prefix es b
+  rw [ha, hb]
+  induction ks with
+  | nil => rfl
+  | cons k rest ih =>
+    obtain ⟨e, d⟩ := k
+    rw [ValueOrd.cmpKeys_cons, ValueOrd.cmpKeys_cons,
+      ih (fun k hk => h k (List.mem_cons_of_mem _ hk))]
+    have hk := h (e, d) (List.mem_cons_self ..)
+    simp only [ValueOrd.keyCmp]
+    rw [eval_append e a xa (fun i hi => by have := hk i hi; omega),
+      eval_append e b xb (fun i hi => by have := hk i hi; omega)]
+
+/-- **derive keeps the order**: on rows of width `w`, a sort by keys over the existing columns commutes
+with a derive -/
+theorem derive_sortRows (w : Nat) (es : List Expr) (ks : List SortKey) (rows : List Row)
+    (hw : ∀ r ∈ rows, r.length = w) (hk : KeysWithin w ks) :
+    (sortRows ks rows).map (deriveRow es) = sortRows ks (rows.map (deriveRow es)) := by
+  apply map_isortBy_on (le := leKeys ks) (le' := leKeys ks)
+  intro a ha b hb
+  simp only [leKeys]
+  rw [cmpKeys_deriveRow es ks a b (by rw [hw a ha, hw b hb, Nat.min_self]; exact hk)]
+
 /-! ### non-vacuity -/
 
 /-- `filter a<5 | sort b | derive x = a+b | sort {-x} | take 2..3` on a table with two columns -/
